@@ -109,3 +109,84 @@ if not sum(f or 0 for f in _found):
     ck.inconclusive.append('P1 vacuous: find_path never returned a path')
 ck.notes.append(f'find_path: {len(_cases)} graphs, {sum(f or 0 for f in _found)} paths returned a walk')
 ck.functions += ['GraphEngine::find_path', 'GraphEngine::reconstruct_path', 'GraphEngine::get_edge_list', 'GraphEngine::get_edge', 'GraphEngine::node_exists']
+
+# ------------------------------------------------------------------ P2: find_variable_paths returns exactly the walks within the hop bounds
+HOPS = [(1, 2), (2, 3), (1, 3)] if T == 'quick' else [(0, 2), (1, 1), (1, 2), (2, 2), (1, 3), (2, 3), (3, 3)]
+VGRAPHS = [[(0, 1)], [(0, 1), (1, 2)], [(0, 1), (1, 0)], [(0, 1), (1, 1)], [(0, 1), (0, 1)], [(0, 1), (1, 2), (2, 0)]] + ([[(0, 1), (1, 2), (0, 2)], [(0, 0), (0, 1)], [(0, 1), (1, 2), (2, 1)]] if T != 'quick' else [])
+ck.bounds['find_variable_paths'] = f'{len(VGRAPHS)} edge multisets over {N_NODES} nodes x all direction flags, hop windows {HOPS}, allow_cycles both, direction Outgoing, no type / property filter, max_paths 1000; from / to symbolic'
+ck.declare('P2_variable_paths_are_exactly_the_walks_in_bounds', f'find_variable_paths(from, to, cfg) on {len(VGRAPHS)} edge multisets x direction flags x {len(HOPS)} hop windows x allow_cycles',
+           'the returned edge sequences are exactly the walks from `from` to `to` whose length lies in [min_hops, max_hops] (directed edges forwards, undirected either way); with allow_cycles = false exactly those that repeat no node; no duplicates')
+FV = lambda n: P.field('VariableLengthConfig', n)
+
+
+def ref_walks(nn, es, dirs, s, t, lo, hi, cycles):
+    out = set()
+
+    def go(cur, nodes, edges):
+        if lo <= len(edges) <= hi and cur == t:
+            out.add(tuple(edges))
+        if len(edges) == hi:
+            return
+        for j, (a, b) in enumerate(es):
+            for (x, y) in ([(a, b)] if dirs[j] or a == b else [(a, b), (b, a)]):
+                if x == cur and (cycles or y not in nodes):
+                    go(y, nodes + [y], edges + [j])
+    go(s, [s], [])
+    return out
+
+
+def vpath_case(case):
+    es, dirs, (lo, hi), cycles = case
+    st = ex.new_state()
+    G = Graph(st, N_NODES, es, concrete=True)
+    G.add_lists(st, dirs)
+    ge = engine(st)
+    ge.fields[F('GraphEngine', 'config')] = Struct('GraphEngineConfig', {P.field('GraphEngineConfig', 'max_path_search_memory_bytes'): Int(z3.BitVecVal(1 << 40, 64), False)}, lazy='GECFG')
+    a1, a2 = z3.BitVec('arg1', 64), z3.BitVec('arg2', 64)
+    for s_ in (a1, a2):
+        st.assume(z3.Or([s_ == n for n in G.nid]))
+    cfg = Struct('VariableLengthConfig', {FV('min_hops'): Int(z3.BitVecVal(lo, 64), False), FV('max_hops'): Int(z3.BitVecVal(hi, 64), False),
+                                          FV('direction'): Enum('Direction', P.variant_index('Direction', 'Outgoing'), {}, variant='Outgoing'), FV('edge_types'): none('Option<Vec<String>>'),
+                                          FV('max_paths'): Int(z3.BitVecVal(1000, 64), False), FV('allow_cycles'): z3.BoolVal(cycles), FV('filter'): none('Option<TraversalFilter>')})
+    res = run(st, 'GraphEngine::find_variable_paths', [ref(ge), Int(a1, False), Int(a2, False), cfg])
+    ck.note_path_problem(res, f'find_variable_paths edges={es} dirs={dirs} hops={lo}..{hi} cycles={cycles}')
+    n_ok = 0
+    for r in res:
+        wit = lambda m, G=G: {'graph_call': 'find_variable_paths', 'nodes': [mval(m, x) for x in G.nid], 'edges': [[a, b, mval(m, G.eid[j]), dirs[j]] for j, (a, b) in enumerate(es)],
+                              'arg1': mval(m, a1), 'arg2': mval(m, a2), 'min_hops': lo, 'max_hops': hi, 'allow_cycles': cycles}
+        if r.status == 'panic':
+            ck.require(ex, 'P2_variable_paths_are_exactly_the_walks_in_bounds', r.pc, None, z3.BoolVal(False), wit, lambda m, w: 'variable-paths-panic')
+            continue
+        if r.status != 'return':
+            continue
+        if r.retval.variant != 'Ok':
+            ck.require(ex, 'P2_variable_paths_are_exactly_the_walks_in_bounds', r.pc, None, z3.BoolVal(False), wit, lambda m, w: 'variable-paths-refused')
+            continue
+        n_ok += 1
+        out = r.retval.fields[('Ok', 0)].load(P.field('VariableLengthPaths', 'paths'), None, r.st).items(r.st)
+        got = []
+        for p_ in out:
+            p_ = p_.load(r.st) if isinstance(p_, Ptr) else p_
+            got.append([x.v for x in p_.load(F('Path', 'edges'), None, r.st).items(r.st)])
+        # edge ids are concrete here: read the sequences back as indices
+        eidx = {z3.simplify(e).as_long(): j for j, e in enumerate(G.eid)}
+        try:
+            got_idx = [tuple(eidx[z3.simplify(x).as_long()] for x in seq) for seq in got]
+        except (KeyError, AttributeError):
+            ck.require(ex, 'P2_variable_paths_are_exactly_the_walks_in_bounds', r.pc, None, z3.BoolVal(False), wit, lambda m, w: 'variable-paths-unknown-edge')
+            continue
+        cs = []
+        for s_ in range(N_NODES):
+            for t_ in range(N_NODES):
+                want = ref_walks(N_NODES, es, dirs, s_, t_, lo, hi, cycles)
+                cs.append(z3.Implies(z3.And(a1 == G.nid[s_], a2 == G.nid[t_]), z3.BoolVal(set(got_idx) == want and len(got_idx) == len(set(got_idx)))))
+        ck.require(ex, 'P2_variable_paths_are_exactly_the_walks_in_bounds', r.pc, None, z3.And(cs), wit, lambda m, w: 'variable-paths-differ-from-the-walks-in-bounds')
+    return n_ok
+
+
+_vcases = [(es, dirs, hops, cyc) for es in VGRAPHS for dirs in itertools.product((True, False), repeat=len(es)) for hops in HOPS for cyc in (False, True)]
+_vfound = ck.parallel([_vcases[i::8] for i in range(8)], lambda chunk: sum(vpath_case(c) for c in chunk), jobs=8 if T != 'quick' else 4)
+if not sum(f or 0 for f in _vfound):
+    ck.inconclusive.append('P2 vacuous: find_variable_paths never returned')
+ck.notes.append(f'find_variable_paths: {len(_vcases)} cases')
+ck.functions += ['GraphEngine::find_variable_paths', 'GraphEngine::find_paths_dfs_backtrack', 'GraphEngine::get_variable_path_neighbors_filtered']
